@@ -238,7 +238,7 @@ def _first_diff(a, b):
 
 
 def run(chk, b, tier):
-    n = 32 if tier == "quick" else 400
+    n = 32 if tier == "quick" else 2000
     sz = b.sizer()
     scratch = b.scratchdir()
     shimdir = b.shimdir()
